@@ -81,11 +81,11 @@ PROPS = {
     "C03": P(["tri"], tb=TRI_TB, assumptions=TRI_AS,
              partial="the tiling clauses (inside, pairwise disjoint, area sum) are decided by the exact integer oracle on every explored input (exhaustive on the 4x4 lattice up to 6 vertices); the all-input theorems cover non-degeneracy and the local geometry"),
     "C04": P(["tri"], tb=TRI_TB, assumptions=TRI_AS,
-             partial="acceptance is a theorem for every non-degenerate triangle (C04Triangle.triangle_accepted_general, vertical edges included) and every simple quadrilateral with distinct abscissae (C04Quad.quad_accepted: convex, reflex Bend, improper Start, merging End; two triangles, exact area, ghost order flag true); C04Ties/C04Order justify the comparator's tie rules and the list model of the B-tree; for larger inputs acceptance is decided by exhaustive enumeration + structured generators (the general sweep invariant is not proved)"),
+             partial="acceptance is a theorem for every non-degenerate triangle (C04Triangle.triangle_accepted_general, vertical edges included) and every simple quadrilateral with distinct abscissae (C04Quad.quad_accepted: convex, reflex Bend, improper Start, merging End; two triangles, exact area, ghost order flag true); C04Ties/C04Order justify the comparator's tie rules and the list model of the B-tree; C04QuadV.quad_accepted_general removes the distinct-abscissae hypothesis (vertical edges, aligned vertices); C04Convex.convex_accepted: every strictly convex x-monotone polygon with n >= 3 vertices and distinct abscissae, any start vertex and orientation, yields n-2 non-degenerate triangles with input corners and total area |shoelace|, ghost flag true (induction over the event queue); for other inputs acceptance is decided by exhaustive enumeration + structured generators (the general sweep invariant is not proved)"),
     "C15": P(["tri"], tb=TRI_TB, assumptions=TRI_AS,
-             partial="C15Heap proves for every input that the model never fails with a heap-encoding panic (model-bad-*), never reaches `unreachable`, and (over XQ) never indexes a missing registered edge (`index`): the only panic kind not excluded by a theorem is a RefCell `borrow` conflict, which is decided on explored inputs; the deep field-wise `==` of BTreeSet::range's sanity check is modelled by identity only"),
+             partial="C15Heap proves for every input that the model never fails with a heap-encoding panic (model-bad-*), never reaches `unreachable`, and (over XQ) never indexes a missing registered edge (`index`): the only panic kind not excluded outright is a RefCell `borrow` conflict: C15Borrow proves it can only be raised in a pass that starts with a self-loop or coinciding partners among the edges registered with the vertex being handled, an executable monitor of exactly that condition (Model/SweepMon.lean, proved identical to the theorem's monitor in C15Monitor) runs in the driver next to every compared input, and the harness reports any input on which it drops (never observed; the prover's own search of 2.6e8 lattice inputs found none); the deep field-wise `==` of BTreeSet::range's sanity check is modelled by identity only"),
     "C16": P(["tri"], tb=TRI_TB, assumptions=TRI_AS,
-             partial="global rejection of every proper crossing is decided by exhaustive enumeration; the theorems cover the local crossing test"),
+             partial="C16Quad.bowtie_rejected: every self-intersecting quadrilateral with distinct abscissae is rejected with an Overlap error at its second event (full path through the model, all rotations and orientations); for larger inputs rejection of every proper crossing is decided by exhaustive enumeration and generators; C16.lean covers the local crossing test"),
     "C07": P(["disp2d"], tb=DISP_TB, assumptions=DISP_AS,
              partial="'within the sum of the reported estimates' is decided by the exact-antiderivative oracle on polynomial f,c,g; theorems give the chain/additivity and per-piece quadrature identity"),
     "C08": P(["disp3d", "quad2d"], tb=DISP_TB + TRI_TB + QUAD_TB, assumptions=DISP_AS,
